@@ -3,7 +3,10 @@ import QV.Drive.CircJson
 import QV.Drive.C09
 import QV.Drive.BExpJson
 import QV.Model.Grover
-/-! JSON handlers for C15 (Grover): `c15.gates`, `c15.kdefault`, `c15.predict`, `c15.decode`. -/
+import QV.Model.CompilerClass
+import QV.Drive.Comp
+/-! JSON handlers for C15 (Grover): `c15.gates`, `c15.kdefault`, `c15.predict`, `c15.decode`, `c15.or2xor`,
+`c15.oracle_class` (also used by C16). -/
 namespace QV.Drive.C15
 open Lean QV QV.Grover QV.Drive
 
@@ -47,6 +50,28 @@ def or2xorOp (j : Json) : R Json := do
   let e ← parseBExp (← j.getObjVal? "e")
   pure (Json.mkObj [("out", bexpJ (or2xor q e))])
 
+/-- `c15.oracle_class`: is the definition list of an oracle / black box in the class `inXorFragment` of
+`QV.C15.C15_end_to_end_fragment` / `QV.C16.C16_end_to_end_fragment` (one return bit)?  If so and the ancilla
+choices of the real compilation are given, the compiler model is run on them (`uncompute = true`) and its gate
+list, number of qubits and the qubit of the return name are returned, so that the harness can check that the
+oracle inside the algorithm circuit is the one the theorems speak of. -/
+def oracleClassOp (j : Json) : R Json := do
+  let inputs ← j.getObjValAs? (List String) "inputs"
+  let defs ← Comp.parseDefs (← j.getObjVal? "exprs")
+  let rets ← j.getObjValAs? (List String) "ret"
+  let inCls := rets.length == 1 && Compiler.inXorFragment inputs defs rets
+  let base : List (String × Json) := [("in_xor_fragment", toJson inCls)]
+  if !inCls then return Json.mkObj base
+  match (j.getObjValAs? (List Nat) "choices").toOption with
+  | none => pure (Json.mkObj base)
+  | some choices =>
+    match (Compiler.compile inputs defs (some rets) true).run { choices := choices } with
+    | .error e => pure (Json.mkObj (base ++ [("error", Json.str e)]))
+    | .ok ((), s) =>
+      pure (Json.mkObj (base ++ [("gates", gatesJ s.qc.gates.toList), ("num_qubits", toJson s.qc.numQubits),
+        ("ret", optNatJ (rets.head?.bind (Compiler.dictGet? s.qc.qmap))),
+        ("choices_left", toJson s.choices.length)]))
+
 def handle (op : String) (j : Json) : Option (R Json) :=
   match op with
   | "c15.gates" => some (gatesOp j)
@@ -54,6 +79,7 @@ def handle (op : String) (j : Json) : Option (R Json) :=
   | "c15.predict" => some (predictOp j)
   | "c15.decode" => some (decodeOp j)
   | "c15.or2xor" => some (or2xorOp j)
+  | "c15.oracle_class" => some (oracleClassOp j)
   | _ => none
 
 end QV.Drive.C15
